@@ -107,6 +107,7 @@ def gen_case(rng, op, small=False):
             deco["formula"][m] = rng.choice(["C2H4", "H2O", "C6H12O6"])
     if rng.random() < 0.7:
         deco["compartments"] = {c: rng.choice(["cytosol", "ext", ""]) for c in ("c", "e") if rng.random() < 0.8}
+    deco["groups_via_parent"] = rng.random() < 0.3
     ng = rng.randrange(0, 4)
     members_pool = ["r:" + r["id"] for r in net["rxns"]] + ["m:" + m for m in net["mets"]] + ["g:" + g for g in genes]
     for i in range(ng):
@@ -154,7 +155,12 @@ def build(case):
                 pass
         groups[g["id"]] = Group(g["id"], name="group " + g["id"], members=mem, kind=g["kind"])
     if groups:
-        m.add_groups(list(groups.values()))
+        if deco.get("groups_via_parent"):
+            # nested groups reach the model through their parent only (add_groups registers the members' groups)
+            top = [g for g in groups.values() if not any(g in h.members for h in groups.values() if h is not g)]
+            m.add_groups(top or list(groups.values()))
+        else:
+            m.add_groups(list(groups.values()))
     for what in ("notes", "annotation"):
         for k, v in deco.get(what, {}).items():
             try:
@@ -654,7 +660,10 @@ def apply_edit(m, e, other=None):
 def run_frame_case(case):
     m = build(case)
     enter_context(case, m)
-    c = do_copy(case["how"], m)
+    try:
+        c = do_copy(case["how"], m)
+    except Exception as ex:  # noqa  -- a copy operation that raises on a model the public API built is a violation
+        return [{"step": -1, "edit": ["copy:" + case["how"]], "diff": ["raised %s: %s" % (type(ex).__name__, ex)]}], {}
     edited, other = (c, m) if case["side"] == "copy" else (m, c)
     base = observe(other)
     stats, fails = {}, []
